@@ -35,7 +35,8 @@ def run_line(dry, extra, gens, files):
     ex = ";".join(hx(x) for x in extra) if extra else "-"
     # a fourth component, if given, says how the generator's path is written (abs, rel, dot, dslash, updown)
     g = " ".join("%s:%s:%s%s" % (g_[0], hx(g_[1]) if g_[1] else "-", g_[2].hex() if g_[2] else "-", (":" + g_[3]) if len(g_) > 3 else "") for g_ in gens)
-    f = " ".join("%s:%s:%s" % (k, hx(n), hx(t) if isinstance(t, str) else (t.hex() or "-")) for k, n, t in files)
+    # (kind B: the name is given as bytes)
+    f = " ".join("%s:%s:%s" % (k, n.hex() if isinstance(n, bytes) else hx(n), hx(t) if isinstance(t, str) else (t.hex() or "-")) for k, n, t in files)
     return "run %d %s G %s F %s" % (1 if dry else 0, ex, g, f)
 
 
